@@ -118,4 +118,45 @@ PROPS = {
         "rule": "call: at least one function executed, or an unsatisfied error with a converter present; sig: positional signatures.",
         "runs": {"quick": [fam("call", 800, 0), fam("sig", 600, 5)], "thorough": [fam("call", 200000, 0), fam("sig", 50000, 5)]},
     },
+    "C02": {
+        "claim": "(theorems pending) Unsatisfiable calls are refused: error returned, target never run, no converter run with a missing argument, dedicated error type when every converter is satisfiable. Tied to the code by trace conformance on scenarios with a hopeless / underivable parameter (dead types, AND-unreachable converters, cycles) and the predicate evaluated on the real trace against the executable derivability fixpoint.",
+        "note": "derivability is computed under the matching table of C01 (a superset of what the library can match, so the premise is conservative).",
+        "theorems": [], "facts": {"r5SkipSame": "true", "r6NameTest": "true", "publishAfterUpdate": "true", "trackReaching": "true", "takeValuedNamed": "true", "memoCopy": "true"},
+        "rule": "call: at least one function executed, or an unsatisfied error with a converter present.",
+        "runs": {"quick": [fam("call", 500, 0, "hopeless"), fam("call", 300, 0, "general")],
+                 "thorough": [fam("call", 60000, 0, "hopeless"), fam("call", 40000, 0, "general")]},
+    },
+    "C03": {
+        "claim": "(theorems pending) Exact matches win: with an exactly matching supplied value for every parameter no converter runs and each parameter receives that value, whatever distractors are supplied. Tied to the code by trace conformance on the exact+distractors family (5 repetitions per scenario for tie-breaking) and the predicate on real traces.",
+        "note": "", "theorems": [], "facts": {"r5SkipSame": "true", "r6NameTest": "true", "publishAfterUpdate": "true", "trackReaching": "true", "takeValuedNamed": "true", "memoCopy": "true"},
+        "rule": "call: any scenario of the family (the target always executes).",
+        "runs": {"quick": [fam("call", 500, 0, "exact"), fam("call", 200, 0, "general")],
+                 "thorough": [fam("call", 100000, 0, "exact"), fam("call", 20000, 0, "general")]},
+    },
+    "C04": {
+        "claim": "Theorems (for every graph, oracle, behaviour and fuel): a failing execution is the last execution of the call and its error is what Call returns; a successful call executed no failing function; the target's own error is reported by the accessor. Tied to the code by trace conformance on chains with failing converters at every depth (multi-input, struct-returning, memoised) with error identity checked through provenance ids.",
+        "note": "", "theorems": [], "facts": {"r5SkipSame": "true", "r6NameTest": "true", "publishAfterUpdate": "true", "trackReaching": "true", "takeValuedNamed": "true", "memoCopy": "true"},
+        "rule": "call: at least one function executed.",
+        "runs": {"quick": [fam("call", 500, 0, "fail"), fam("call", 200, 0, "general")],
+                 "thorough": [fam("call", 50000, 0, "fail"), fam("call", 20000, 0, "general")]},
+    },
+    "C05": {
+        "claim": "(theorems pending) Chaining is complete and the outcome stable on well-behaved converter sets. Tied to the code by trace conformance on acyclic-satisfiable and single-input-cyclic families, 8 repetitions per scenario; completeness is judged against the matching table, with the table-but-not-library matches (gaps G1-G5) listed as known findings.",
+        "note": "", "theorems": [], "facts": {"r5SkipSame": "true", "r6NameTest": "true", "publishAfterUpdate": "true", "trackReaching": "true", "takeValuedNamed": "true", "memoCopy": "true"},
+        "rule": "call: at least one function executed, or an unsatisfied error with a converter present.",
+        "runs": {"quick": [fam("call", 300, 0, "single"), fam("call", 300, 0, "acyclic")],
+                 "thorough": [fam("call", 30000, 0, "single"), fam("call", 30000, 0, "acyclic")]},
+    },
+    "C07": {
+        "claim": "(theorems pending) Name affinity decides between equal candidates. Tied to the code by trace conformance on the two documented families (1-6 competing same-typed inputs; type-only vs name-using converter; all forms; shuffled registration order; 10 repetitions).",
+        "note": "", "theorems": [], "facts": {"r5SkipSame": "true", "r6NameTest": "true", "publishAfterUpdate": "true", "trackReaching": "true", "takeValuedNamed": "true", "memoCopy": "true"},
+        "rule": "call: the converter executed.",
+        "runs": {"quick": [fam("call", 250, 0, "affinity")], "thorough": [fam("call", 20000, 0, "affinity")]},
+    },
+    "C13": {
+        "claim": "(theorems pending) The unsatisfied-argument error lists the hopeless parameter, only underivable parameters, exactly the supplied values, every supplied converter, and its message mentions each missing argument. Tied to the code by comparing the structured error fields (errors.As) of the real code with the model on scenarios with a hopeless parameter.",
+        "note": "", "theorems": [], "facts": {"r5SkipSame": "true", "r6NameTest": "true", "publishAfterUpdate": "true", "trackReaching": "true", "takeValuedNamed": "true", "memoCopy": "true"},
+        "rule": "call: an unsatisfied error with a converter present, or a function executed.",
+        "runs": {"quick": [fam("call", 600, 0, "hopeless")], "thorough": [fam("call", 50000, 0, "hopeless")]},
+    },
 }
